@@ -11,6 +11,7 @@ floating-point backward-error bounds, conjugate gradient, convergence of the
 symmetric eigensolver (see MANIFEST note of checks/c02.py).
 -/
 import SharkVerif.Lemmas.LinSolveChol
+import SharkVerif.Lemmas.LinSolveLU
 namespace SharkVerif.C02
 open SharkVerif.LinSolve
 
@@ -187,5 +188,45 @@ example : potrfInfo false (fun s => if s = 4 then 2 else 0) 1 (fun _ _ => 4) = 0
     have : j = 0 := by omega
     subst this
     norm_num [cholPivot, pivotOf, sum]
+
+/-! ## pivoted LU (`getrf`) -/
+
+/-- `kernels::getrf(A, P)`: for every size and every input on which no exception is thrown
+(no zero pivot), **`P·A = L·U`**: `L` the unit lower triangle, `U` the upper triangle of the in-place
+result, `P·A` the rows of `A` permuted by the recorded transposition sequence (`swap_rows(P, A)`). -/
+theorem getrf_correct (n : Nat) (A : Mat) (h : (getrf n A).fail = false) :
+    ∀ i k, i < n → k < n →
+      mul n (triPart ⟨false, true⟩ (fun i j => mget (getrf n A).M i j))
+            (triPart ⟨true, false⟩ (fun i j => mget (getrf n A).M i j)) i k
+        = A (permOf (getrf n A).P n i) k := by
+  intro i k hi hk
+  have inv := getrf_inv n A n (Nat.le_refl n) h i k hi hk
+  rw [← Lf_eq_triPart, ← Uf_eq_triPart]
+  unfold getrf at *
+  rw [inv, if_neg (by omega)]
+  unfold mul
+  ring
+
+/-- non-vacuity: a 2×2 matrix that needs a row swap -/
+example : (getrf 2 (fun i j => if i = 0 ∧ j = 0 then 1 else if i = 1 ∧ j = 1 then 3 else 2)).fail = false := by
+  norm_num [getrf, iter, getrfStep, pivotRow, mget_matOf, absR, swapRows, sw, List.range, List.range.loop]
+
+/-! ## `solver_traits`: solve = (permutation +) two triangular solves -/
+
+/-- **solve from a factorisation**: if `A = B·C` on `[0,n)²`, `y` solves `B y = b` and `x` solves
+`C x = y`, then `A x = b`.  This is the step from "the decomposition reproduces its matrix" and
+"the triangular solves are correct" to "the solve call returns a solution"; it is instantiated
+below for `symm_pos_def` (`B = L`, `C = Lᵀ`). -/
+theorem solve_eq_of_factorisation (n : Nat) (A B C : Mat) (b x y : Vec)
+    (hfac : ∀ i k, i < n → k < n → mul n B C i k = A i k)
+    (hy : ∀ i, i < n → mulVec n B y i = b i)
+    (hx : ∀ i, i < n → mulVec n C x i = y i) :
+    ∀ i, i < n → mulVec n A x i = b i := by
+  intro i hi
+  rw [← hy i hi]
+  rw [show mulVec n A x i = mulVec n (mul n B C) x i from
+    mulVec_congr (fun k hk => (hfac i k hi hk).symm) (fun _ _ => rfl)]
+  rw [mulVec_mul]
+  exact mulVec_congr (fun _ _ => rfl) (fun k hk => hx k hk)
 
 end SharkVerif.C02
